@@ -83,7 +83,12 @@ def splice_fn(s, name, impl, spec):
                 raise AnchorLost(f'{name}: loop #{ordinal} not found')
             m = heads[ordinal]
             brace = m.end() - 1
-            txt = '\n    invariant\n' + ''.join(f'        {c},\n' for c in invs.get('invariant', []))
+            txt = ''
+            if invs.get('invariant_except_break'):
+                txt += '\n    invariant_except_break\n' + ''.join(f'        {c},\n' for c in invs['invariant_except_break'])
+            txt += '\n    invariant\n' + ''.join(f'        {c},\n' for c in invs.get('invariant', []))
+            if invs.get('ensures'):
+                txt += '    ensures\n' + ''.join(f'        {c},\n' for c in invs['ensures'])
             if invs.get('decreases'):
                 txt += f'    decreases {invs["decreases"]},\n'
             inserts.append((brace, txt))
@@ -241,10 +246,14 @@ def build_and_verify(scratch, kind='parser'):
         for s0, name in starts:
             if s0 <= line:
                 fn = name
-        lab = re.search(r'/\*(C\d\d[^*]*)\*/', lines[line - 1]) if 0 < line <= len(lines) else None
         block = m.group(0).strip()
-        if lab and ('/*' + lab.group(1) + '*/') not in block:
-            block = '/*' + lab.group(1) + '*/ ' + block      # tag the block with the label of the failing clause line
+        # label of the failing clause: on the primary line, or on any source line the block quotes (an invariant that fails
+        # at a `break` is reported at the break, with the invariant's line quoted below it)
+        cited = [line] + [int(x) for x in re.findall(r'^\s*(\d+)\s*\|', block, flags=re.M)]
+        for ln_no in cited:
+            lab = re.search(r'/\*(C\d\d[^*]*)\*/', lines[ln_no - 1]) if 0 < ln_no <= len(lines) else None
+            if lab and ('/*' + lab.group(1) + '*/') not in block:
+                block = '/*' + lab.group(1) + '*/ ' + block      # tag the block with the label of the failing clause line
         errs.setdefault(fn, []).append(block)
     res['errors_by_fn'] = errs
     vr = (js or {}).get('verification-results', {})
